@@ -47,6 +47,7 @@ type rec struct {
 	pkArgs  []interface{}
 	keyBad  bool
 	lit     string
+	null    []bool // per leaf: the stored row holds NULL in its column (set by checkStored)
 }
 
 type env struct {
@@ -437,6 +438,11 @@ func (e *env) checkStored(rc *rec, mixed bool) bool {
 		return false
 	}
 	row := rows[0]
+	rc.null = make([]bool, len(m.leaves))
+	for _, l := range m.leaves {
+		cell, ok := row[l.col]
+		rc.null[l.ord] = !ok || cell == nil
+	}
 	if pay := canonRaw(m.payload, row[m.payload.col]); pay != "s:"+rc.payload {
 		e.problem(e.keySig(rc, mixed), "record %d: its in-memory key %v identifies the row with payload %s, its own payload is %q", rc.idx, rc.pkArgs, pay, rc.payload)
 		rc.keyBad = true
@@ -860,7 +866,8 @@ func (e *env) runMapShape(shape string) {
 				continue
 			}
 			key := l.col
-			if len(l.path) == 1 && r.Chance(1, 3) {
+			// the Go field name as key, unless that name is the column of another field (see Assumptions)
+			if len(l.path) == 1 && !m.colSet[l.path[0]] && r.Chance(1, 3) {
 				key = l.path[0]
 			}
 			v := e.mapValue(l, gv)
